@@ -12,9 +12,11 @@ JTmRun(e) ==
       ref == Run(T, e.w, e.k)
       n == Len(seq)
   IN IF e.exc # "none" THEN {"raised_" \o e.exc}
-     ELSE BadT("starts_initial", n = 0 \/ seq[1] # InitConf(T, e.w))
+     ELSE BadT("starts_initial", n = 0 \/ Norm(T, seq[1]) # Norm(T, InitConf(T, e.w)))
           \cup BadT("steps_follow_delta",
-                    \E i \in 1..(n - 1) : Halting(T, seq[i].q) \/ seq[i + 1] # StepConf(T, seq[i]))
+                    \E i \in 1..(n - 1) : \/ Halting(T, seq[i].q)
+                                          \/ Norm(T, seq[i + 1]) # Norm(T, StepConf(T, Pad(T, seq[i]))))
+          \cup BadT("head_on_tape", \E i \in 1..n : seq[i].head < 0)
           \cup BadT("stops_at_first_halt_or_budget", n # Len(ref))
           \cup BadT("verdict_three_valued",
                     \E k \in DOMAIN e.verdicts : e.verdicts[k] # Verdict(T, e.w, e.budgets[k]))
